@@ -232,8 +232,9 @@ def mesh_spec(draw, kinds=None, max_parts=1, jitter=True, lattice=False, disjoin
     for i in range(nparts):
         p = draw(part(kinds, max_faces))
         p["scale"] = draw(st.sampled_from([1.0, 1.0, 0.5, 2.0])) if nparts > 1 else 1.0
-        # bounding radius of every template is < 4 at scale 1; 12 apart at scale<=2 keeps parts disjoint
-        p["offset"] = [12.0 * i, 0.0, 0.0] if disjoint else [draw(_f(-1, 1)) for _ in range(3)]
+        # bounding radius of every template is < 4 at scale 1 (torus: R + r <= 3.9), i.e. < 8 at scale 2, plus
+        # jitter: 20 apart keeps parts disjoint
+        p["offset"] = [20.0 * i, 0.0, 0.0] if disjoint else [draw(_f(-1, 1)) for _ in range(3)]
         parts.append(p)
     spec = {"parts": parts}
     if jitter and draw(st.booleans()):
